@@ -6,6 +6,13 @@ every resolving population, key types, names that are words of the format,
 definition orders), each sent through every serialization route; the reloaded
 metamodel must have the same canonical snapshot, and serialising the reloaded
 metamodel must be a fixed point.
+
+History family: a populated metamodel is saved (by every serialization route),
+the schema of one of its classes is then edited live (append_attribute /
+insert_attribute / delete_attribute, values of a new attribute assigned on the
+existing instances, a further instance created), possibly saved and edited
+again, and only then sent through the round-trip oracle: what an earlier save
+did must not show in a later one.
 '''
 import itertools
 import os
@@ -21,6 +28,10 @@ ASSUMPTIONS = [
     'relationship numbers (R<n>) ; phrases contain no quote',
     'carriage returns inside strings are compared on the string routes only (text-mode file reading normalises them)',
     'ids are below 2^128',
+    'history family: an attribute added to a class that has instances is assigned on every existing instance (None = unset '
+    'included) before the metamodel is saved again -- an instance without any value for a declared attribute is outside '
+    'the domain (serialisation raises AttributeError); only attributes that are neither identifying nor referential are '
+    'deleted; the final state goes through one route per serialisation function (no input-order permutations)',
 ]
 
 STR_ALPHABET = ['a', "'", '-', '\n', '\x00', 'é', '"', ';', '(', ',', ' ']
@@ -57,7 +68,69 @@ def build_case(xtuml, case):
         setattr(insts[r], attr, None)
     for x, y, rel, phrase in case.get('links', []):
         xtuml.relate(insts[x], insts[y], rel, phrase)
+    for step in case.get('history', []):
+        history_step(xtuml, m, step)
     return m
+
+
+SAVE_ROUTES = ['serialize_database', 'serialize_instances', 'serialize_instance', 'serialize(metamodel)', 'serialize(instance)',
+               'persist_database', 'persist_instances']
+
+
+class SaveFailed(Exception):
+    pass
+
+
+def history_step(xtuml, m, step):
+    '''One step of a history: ['save', route] | ['append', kind, name, type, values per existing instance] |
+    ['insert', kind, index, name, type, values] | ['delete', kind, name] | ['new', kind, {attr: value}]'''
+    name = step[0]
+    if name == 'save':
+        try:
+            save(xtuml, m, step[1])
+        except Exception as e:
+            raise SaveFailed('%s raised %s: %s' % (step[1], type(e).__name__, e))
+    elif name in ('append', 'insert'):
+        kind = step[1]
+        mc = m.find_metaclass(kind)
+        if name == 'append':
+            attr, ty, values = step[2], step[3], step[4]
+            mc.append_attribute(attr, ty)
+        else:
+            attr, ty, values = step[3], step[4], step[5]
+            mc.insert_attribute(step[2], attr, ty)
+        for inst, v in zip(list(m.select_many(kind)), values):
+            setattr(inst, attr, v)
+    elif name == 'delete':
+        m.find_metaclass(step[1]).delete_attribute(step[2])
+    elif name == 'new':
+        m.new(step[1], **step[2])
+    else:
+        raise ValueError(step)
+
+
+def save(xtuml, m, route):
+    '''An earlier save of the metamodel; the result is thrown away.'''
+    if route == 'serialize_database':
+        xtuml.serialize_database(m)
+    elif route == 'serialize_instances':
+        xtuml.serialize_instances(m)
+    elif route == 'serialize(metamodel)':
+        xtuml.serialize(m)
+    elif route in ('serialize_instance', 'serialize(instance)'):
+        fn = xtuml.serialize_instance if route == 'serialize_instance' else xtuml.serialize
+        for mc in list(m.metaclasses.values()):
+            for inst in list(mc.storage):
+                fn(inst)
+    elif route in ('persist_database', 'persist_instances'):
+        path = os.path.join(bootstrap.tmpdir(), 'c01-save-%d.sql' % os.getpid())
+        getattr(xtuml, route)(m, path)
+        try:
+            os.unlink(path)
+        except OSError:
+            pass
+    else:
+        raise ValueError(route)
 
 
 def load_text(xtuml, texts):
@@ -67,13 +140,15 @@ def load_text(xtuml, texts):
     return l.build_metamodel(xtuml.IntegerGenerator())
 
 
-def routes(xtuml, m0, with_files=True, tag=''):
-    '''Yields (route name, reloaded metamodel).'''
+def routes(xtuml, m0, with_files=True, tag='', full=True):
+    '''Yields (route name, reloaded metamodel). full=False: one route per serialisation function.'''
     db = xtuml.serialize_database(m0)
     yield 'serialize_database', load_text(xtuml, [db])
     parts = [xtuml.serialize_schema(m0), xtuml.serialize_instances(m0), xtuml.serialize_unique_identifiers(m0)]
     yield 'schema+instances+identifiers:one-text', load_text(xtuml, [''.join(parts)])
     for perm in itertools.permutations(range(3)):
+        if not full:
+            break
         yield 'schema+instances+identifiers:inputs:%s' % (perm,), load_text(xtuml, [parts[i] for i in perm])
     yield 'serialize()', load_text(xtuml, [xtuml.serialize(m0)])
     if with_files:
@@ -86,15 +161,16 @@ def routes(xtuml, m0, with_files=True, tag=''):
         xtuml.persist_schema(m0, ps)
         xtuml.persist_instances(m0, pi)
         xtuml.persist_unique_identifiers(m0, pu)
-        for perm in ((0, 1, 2), (2, 1, 0), (1, 0, 2)):
+        for perm in ((0, 1, 2), (2, 1, 0), (1, 0, 2)) if full else ((0, 1, 2),):
             files = [[ps, pi, pu][i] for i in perm]
             yield 'persist_schema+instances+identifiers:%s' % (perm,), xtuml.load_metamodel(files)
         # one file written in three steps with mode='a'
         pa = base + '.append.sql'
-        xtuml.persist_schema(m0, pa)
-        xtuml.persist_instances(m0, pa, mode='a')
-        xtuml.persist_unique_identifiers(m0, pa, mode='a')
-        yield 'persist_*:append-mode', xtuml.load_metamodel(pa)
+        if full:
+            xtuml.persist_schema(m0, pa)
+            xtuml.persist_instances(m0, pa, mode='a')
+            xtuml.persist_unique_identifiers(m0, pa, mode='a')
+            yield 'persist_*:append-mode', xtuml.load_metamodel(pa)
         try:
             os.unlink(pa)
         except OSError:
@@ -126,6 +202,10 @@ def _check_case(ctx, xtuml, case, family):
     except xtuml.MetaException:
         ctx.count('not_constructible')       # e.g. the API rejects a link combination: not a metamodel of the domain
         return None
+    except SaveFailed as e:
+        ctx.violation('c01:%s:save:exception' % family, dict(case=case, family=family),
+                      'an earlier save in the history failed: %s' % e, unit_test=unit_test(case, '?'))
+        return False
     s0 = sqlmodel.snapshot(xtuml, m0)
     ctx.count('cases')
     vcase = dict(case=case, family=family)
@@ -172,7 +252,7 @@ def _check_case(ctx, xtuml, case, family):
 
 
 def _safe_routes(ctx, xtuml, m0, case, vcase, family):
-    gen = routes(xtuml, m0, with_files=not has_cr(case), tag=str(ctx.n('cases')))
+    gen = routes(xtuml, m0, with_files=not has_cr(case), tag=str(ctx.n('cases')), full=not case.get('history'))
     while True:
         try:
             item = next(gen)
@@ -196,6 +276,7 @@ def check_inferred(ctx, xtuml, m0, case, vcase, family):
         return False
     ctx.count('loads')
     for kind, attrs in case['classes']:
+        attrs = list(m0.find_metaclass(kind).attributes)      # (the declared ones, unless a history edited the class)
         exp = []
         for inst in m0.select_many(kind):
             row = []
@@ -220,7 +301,8 @@ def check_inferred(ctx, xtuml, m0, case, vcase, family):
 
 
 def unit_test(case, route):
-    return ('import xtuml\n# build the metamodel of this case (see mc/props/c01.py build_case), then e.g.\n'
+    return ('import xtuml\n# build the metamodel of this case (see mc/props/c01.py build_case; a "history" is applied after the\n'
+            '# rows and links: save = serialize/persist and discard, append/insert/delete = MetaClass.*_attribute + setattr), then e.g.\n'
             '# t = xtuml.serialize_database(m); l = xtuml.ModelLoader(); l.input(t); m1 = l.build_metamodel()\n'
             '# failing route: %s\ncase = %r' % (route, case))
 
@@ -388,6 +470,70 @@ def order_family():
                        uniques=[('B', 'I2', ['Id', 'A_Id']), ('A', 'I1', ['Id']), ('B', 'I1', ['Id'])], rows=rows, links=links)
 
 
+HIST_VALUES = {'STRING': ["it's", ''], 'INTEGER': [5, -1], 'REAL': [1.5, 0.0], 'BOOLEAN': [True, False], 'UNIQUE_ID': [2 ** 64, None]}
+HIST_NEW = {'STRING': 'n', 'INTEGER': 3, 'REAL': 2.5, 'BOOLEAN': True, 'UNIQUE_ID': 77}
+HIST_PAIR_ROUTES = ['serialize_instances', 'serialize(instance)', 'persist_database']
+
+
+def history_bases():
+    yield 'V', dict(classes=[('V', [('S', 'STRING'), ('I', 'INTEGER'), ('U', 'UNIQUE_ID')])],
+                    rows=[('V', dict(S="q'", I=7, U=9)), ('V', dict(S='-- x', I=-2, U=10))]), {'V': ['S', 'I']}
+    yield 'AB', dict(classes=[('A', [('Id', 'UNIQUE_ID'), ('N', 'INTEGER')]), ('B', [('Id', 'UNIQUE_ID'), ('A_Id', 'UNIQUE_ID'), ('T', 'STRING')])],
+                     uniques=[('A', 'I1', ['Id']), ('B', 'I1', ['Id'])],
+                     assocs=[[1, 'B', ['A_Id'], True, True, '', 'A', ['Id'], False, True, '']],
+                     rows=[('A', dict(Id=11, N=1)), ('A', dict(Id=12, N=2)), ('B', dict(Id=21, T='t')), ('B', dict(Id=22, T="u'"))],
+                     links=[(2, 0, 1, ''), (3, 0, 1, '')]), {'A': ['N'], 'B': ['T']}
+
+
+def history_edits(kind, deletable, name, small=False):
+    """The edit alphabet for one class; *name* is the name of an added attribute."""
+    out = []
+    for ty in (['STRING'] if small else ['STRING', 'INTEGER', 'REAL', 'BOOLEAN', 'UNIQUE_ID']):
+        out.append(['append', kind, name, ty, HIST_VALUES[ty]])
+    out.append(['insert', kind, 0, name, 'INTEGER' if small else 'STRING', HIST_VALUES['INTEGER' if small else 'STRING']])
+    if not small:
+        out.append(['insert', kind, 1, name, 'BOOLEAN', HIST_VALUES['BOOLEAN']])
+    for d in (deletable[:1] if small else deletable):
+        out.append(['delete', kind, d])
+    return out
+
+
+def history_family(tier):
+    for bname, base, deletable in history_bases():
+        attrs0 = dict((k, list(a)) for k, a in base['classes'])
+        refs = set((a[1], r) for a in base.get('assocs', []) for r in a[2])
+
+        def finish(hist):
+            # one further instance of every edited class, created through the edited schema
+            attrs = dict((k, list(a)) for k, a in attrs0.items())
+            edited = []
+            for st in hist:
+                if st[0] == 'append':
+                    attrs[st[1]].append((st[2], st[3]))
+                elif st[0] == 'insert':
+                    attrs[st[1]].insert(st[2], (st[3], st[4]))
+                elif st[0] == 'delete':
+                    attrs[st[1]] = [a for a in attrs[st[1]] if a[0] != st[2]]
+                if st[0] != 'save' and st[1] not in edited:
+                    edited.append(st[1])
+            news = [['new', k, dict((n, HIST_NEW[t.upper()]) for n, t in attrs[k] if (k, n) not in refs)] for k in edited]
+            return dict(base, history=hist + news, base=bname)
+        singles = [e for k in sorted(deletable) for e in history_edits(k, deletable[k], 'Zq')]
+        for e in singles:
+            yield finish([e])                                   # (control: an edit without an earlier save)
+            for r in SAVE_ROUTES:
+                yield finish([['save', r], e])
+        firsts = [e for k in sorted(deletable) for e in history_edits(k, deletable[k], 'Zq', small=True)]
+        for e1 in firsts:
+            for k in sorted(deletable):
+                for e2 in history_edits(k, deletable[k][::-1], 'Zr', small=True):
+                    if e2[0] == 'delete' and e1[0] == 'delete' and e1[1:] == e2[1:]:
+                        continue
+                    for r in (SAVE_ROUTES if tier != 'quick' else HIST_PAIR_ROUTES):
+                        yield finish([e1, ['save', r], e2])
+                        yield finish([['save', r], e1, ['save', r], e2])
+
+
 def task(ctx, t):
     family, cases = t
     for case in cases:
@@ -404,7 +550,7 @@ def jsonable(case):
 
 def run(ctx):
     fams = [('values', list(values_family(ctx.tier))), ('links', list(links_family(ctx.tier))),
-            ('keywords', list(keyword_family())), ('order', list(order_family()))]
+            ('keywords', list(keyword_family())), ('order', list(order_family())), ('history', list(history_family(ctx.tier)))]
     tasks = []
     for name, cases in fams:
         cases = [jsonable(c) for c in cases]
@@ -419,6 +565,7 @@ def run(ctx):
     ctx.require(ctx.n('cases') >= 1500, 'too few cases (%d)' % ctx.n('cases'))
     ctx.require(ctx.n('family_links') >= 300, 'too few link populations (%d)' % ctx.n('family_links'))
     ctx.require(ctx.n('loads') >= 10 * ctx.n('cases'), 'too few loads per case')
+    ctx.require(ctx.n('family_history') >= 300, 'too few histories (%d)' % ctx.n('family_history'))
 
 
 def replay(ctx, case):
@@ -432,11 +579,18 @@ def coverage(ctx):
         evaluations=ctx.n('loads'), cases=ctx.n('cases'), not_constructible=ctx.n('not_constructible'),
         families=dict((k[7:], v) for k, v in ctx.counts.items() if k.startswith('family_')),
         distinct_nontrivial=ctx.nd('nontrivial'),
-        rule='states = distinct metamodels of the four families; each goes through 12 string routes, up to 4 file routes, the '
+        rule='states = distinct metamodels of the five families; each goes through 12 string routes, up to 4 file routes, the '
              'fixed-point round, serialize() dispatch and (without associations) the instances-only route; non-trivial = distinct '
-             'metamodels for which every route reproduced the snapshot',
+             'metamodels for which every route reproduced the snapshot. History family: metamodels reached by save / live schema '
+             'edit / save / edit sequences (every save route before every edit of the alphabet; pairs of edits with a save '
+             'between or before both), final state through one route per serialisation function',
         bounds=dict(string_length=2 if ctx.quick else 3, string_alphabet=STR_ALPHABET, specials=len(STR_SPECIALS), ints=len(INTS),
                     reals=len(REALS), ids=len(IDS), schemas=len(key_schemas()), instances_per_class=2 if ctx.quick else 3,
-                    reserved_words=len(RESERVED)),
+                    reserved_words=len(RESERVED),
+                    history=dict(save_routes=SAVE_ROUTES, pair_routes=SAVE_ROUTES if not ctx.quick else HIST_PAIR_ROUTES,
+                                 bases=['V (one class, 2 rows)', 'A-B (association R1, identifiers, 4 rows, 2 links)'],
+                                 edits='append x 5 types, insert at 0 / 1, delete of each plain attribute; values assigned '
+                                       'on existing instances incl. unset; one instance created after the edits',
+                                 edits_per_history='1 or 2')),
         exhaustive=not ctx.caps_hit,
     )
